@@ -21,7 +21,7 @@ ENGINES = [
     {"name": "session-spec", "path": "spec/Exmex.tla spec/MC_Exmex.tla spec/Judge_Calc.tla spec/Field.tla spec/Jets.tla spec/PartialImpl.tla spec/MC_Diff.tla spec/DiffTables.tla",
      "serves_properties": ["C05", "C09", "C10", "C11", "C12"],
      "kind_free_text": "session machine (pool of immutable expressions, one action per API call), field and power-series semantics, transcription of the differentiation rules; history enumeration; trace validation of recorded sessions"},
-    {"name": "float-axioms", "path": "spec/FloatSem.tla spec/Judge_Float.tla", "serves_properties": ["C19"],
+    {"name": "float-axioms", "path": "spec/FloatSem.tla spec/Judge_Float.tla spec/Judge_FloatExpr.tla", "serves_properties": ["C19"],
      "kind_free_text": "fixed-point axioms of the default float operators and constants + special-value class table, evaluated by TLC on recorded values"},
     {"name": "piecewise-judge", "path": "spec/Piecewise.tla spec/Judge_ValDiff.tla", "serves_properties": ["C18"],
      "kind_free_text": "power-series judge with exact rational branch selection for value-typed piecewise derivatives read through the dump hook"},
